@@ -331,8 +331,10 @@ class JSONRPC:
         '''Encode a Python object as JSON and convert it to bytes.'''
         try:
             return json.dumps(payload, separators=(',', ':')).encode()
-        except TypeError:
-            msg = f'JSON payload encoding error: {payload}'
+        except (TypeError, ValueError, RecursionError) as e:
+            # Not only unsupported types: circular references raise ValueError and
+            # excessive nesting RecursionError (when repr() of the payload fails too)
+            msg = f'JSON payload encoding error: {e}'
             raise ProtocolError(cls.INTERNAL_ERROR, msg) from None
 
 
